@@ -31,7 +31,7 @@ MANIFEST = {
     "note": "trusted: the multiprocessing model; pre-emption only at primitives; reliable pipes",
     "technique": "deterministic simulation: seeded schedule search over producer/feeder/worker/shutdown interleavings with early receive timeouts and bounded queues; exactly-once history oracle",
 }
-BUDGET = {"quick": (3000, 60), "thorough": (200000, 1500)}
+BUDGET = {"quick": (3000, 60), "thorough": (300000, 1500)}
 REQUIRED_PROBES = {
     "quick": ["early_timeout", "put_blocked_full", "get_empty_while_item_in_feeder"],
     "thorough": ["early_timeout", "put_blocked_full", "get_empty_while_item_in_feeder", "close_with_items_buffered",
